@@ -384,6 +384,14 @@ def replay(ck, path):
     import preserve_dump
 
     r = json.load(open(path))["replay"]
+    if r.get("stream") == "writer-function-level":
+        # a case of the writer / reader function-level stream: regenerated from (seed, index) and judged again
+        import writer_stage
+
+        ck.seed = int(r.get("seed", ck.seed))
+        info, _ = writer_stage.function_stage(ck, 0, 0, only=(r.get("malformed", False), r["index"]))
+        print("writer-function-level case", r["index"], info)
+        ck.finish({"evaluations": info["requests"], "distinct_nontrivial": info["cases"], "rule": "replay"})
     if not r.get("src_model_b64"):
         raise common.InfraError("replay file carries no source model")
     data = base64.b64decode(r["src_model_b64"])
